@@ -26,25 +26,29 @@ Tokens == CASE Alphabet = "full" -> TokensFull [] Alphabet = "deep" -> TokensDee
 VerSet == { Flatten(ts) : ts \in UNION { [1..n -> Tokens] : n \in 0..MaxTok } }
 V  == SetToSeq(VerSet)
 N  == Len(V)
-T0  == [i \in 1..N |-> TokL(V[i], 0)]
-T96 == [i \in 1..N |-> TokL(V[i], 96)]
 
 \* may the text follow an operator in a pattern / be the version part of a name?
 PatElig(v)  == ~(\E i \in 1..Len(v) : v[i] \in {LT, GT, LBRACE, RBRACE}) /\ (v = <<>> \/ v[1] # EQ)
 NameElig(v) == ~Has(v, DASH)
 
-VARIABLE a
-Init == a = 0
-Next == a = 0 /\ a' \in 1..N
+\* a: 0 at the start, -g for group g of rows (so that the workers share the rows), then a row
+\* number.  tab holds the two token tables as values: a constant definition [i \in 1..N |-> ...]
+\* stays a lazy function in TLC and would tokenise again at every access.
+VARIABLES a, tab
+Groups == 16
+Init == a = 0 /\ tab = <<[i \in 1..N |-> TokL(V[i], 0)], [i \in 1..N |-> TokL(V[i], 96)]>>
+Next == /\ UNCHANGED tab
+        /\ \/ a = 0 /\ a' \in {-g : g \in 1..Groups}
+           \/ a < 0 /\ a' \in {i \in 1..N : (i % Groups) + 1 = -a}
 
 Header == [op |-> "verlist",
            in |-> [vs |-> V, pe |-> [i \in 1..N |-> IF PatElig(V[i]) THEN "T" ELSE "F"],
                              ne |-> [i \in 1..N |-> IF NameElig(V[i]) THEN "T" ELSE "F"]]]
-Row(i) == LET s0  == [j \in 1..N |-> CmpTok(T0[i], T0[j])]
-              s96 == [j \in 1..N |-> CmpTok(T96[i], T96[j])]
+Row(i) == LET s0  == [j \in 1..N |-> CmpTok(tab[1][i], tab[1][j])]
+              s96 == [j \in 1..N |-> CmpTok(tab[2][i], tab[2][j])]
           IN IF s0 = s96
              THEN [op |-> "verrow", in |-> [a |-> i], out |-> [sg |-> s0]]
              ELSE [op |-> "verrow", in |-> [a |-> i], out |-> [sg |-> s0], alt |-> [KF1 |-> [sg |-> s96]]]
 
-Emit == PrintT(<<"CASE", ToJson(IF a = 0 THEN Header ELSE Row(a))>>)
+Emit == a < 0 \/ PrintT(<<"CASE", ToJson(IF a = 0 THEN Header ELSE Row(a))>>)
 =============================================================================
